@@ -309,6 +309,7 @@ package syncer
 //@   after_call receiver.(*Receiver).HasSnapshots#0 ghost loc_hasSnap := ite(ret0, 1, 0)
 //@   at_call syncer.(*Syncer).SendOnce#0 assert no_snapshot_exists_yet: ghost_loc_startLast > 0 && ghost_loc_hasSnap == 0
 //@   at_call syncer.(*Syncer).SendOnce#1 assert own_old_snapshot_loaded_first: !waitingForInstances.Contains(ownInstanceID)
+//@   at_call syncer.(*Syncer).SendOnce#1 assert own_is_the_name_in_snapshot_names: sameSlice(ownInstanceID, s.instanceID())
 //@   at_call syncer.(*Syncer).SendOnce#1 assert local_change_startup_or_forced: snapshotOverdue || ghost_loc_prevSynced == 0 || ghost_lastApp > ghost_loc_prevSynced
 //@   noswallow except receiver.(*Receiver).RunOnce
 //@   at_call utils.SleepContext#0 assert idle_published: !s.opt.ReceiveOnly && ghost_loc_info <= uint64(lastSyncedTxnID) ==> ghost_unpub > ghost_loc_info
